@@ -101,6 +101,7 @@ class Inliner:
         self.generated: Set[str] = set()
         self.results: Set[str] = set()
         self.optional_results: Set[str] = set()
+        self.may_be_none: Set[str] = set()
 
     def helper(self, call: ast.Call) -> Optional[ast.FunctionDef]:
         if self.methods and isinstance(call.func, ast.Attribute) and \
@@ -161,6 +162,15 @@ class Inliner:
         self.results.add(result)
         if fn.returns is not None and ast.unparse(fn.returns).startswith('Optional['):
             self.optional_results.add(result)
+        body_ = _docless(fn.body)
+        ends_unreachable = bool(body_) and (
+            isinstance(body_[-1], ast.Raise) or
+            (isinstance(body_[-1], ast.Assert) and isinstance(body_[-1].test, ast.Constant)
+             and body_[-1].test.value is False))
+        returns_none = any(isinstance(n, ast.Return) and
+                           (n.value is None or _is_none(n.value)) for n in ast.walk(fn))
+        if returns_none or (_falls_through(body_) and not ends_unreachable):
+            self.may_be_none.add(result)
         params = [a.arg for a in fn.args.posonlyargs + fn.args.args]
         is_method = isinstance(call.func, ast.Attribute)
         if is_method:
@@ -294,7 +304,8 @@ class Inliner:
         fn = copy.deepcopy(self.func.node)
         fn.body = self.block(fn.body, self.depth)
         if self.inlined:
-            if split_optional_results(fn, self.results, self.optional_results):
+            if split_optional_results(fn, self.results & self.may_be_none,
+                                      self.optional_results):
                 self.generated |= {n.id for n in ast.walk(fn) if isinstance(n, ast.Name)
                                    and '_p' in n.id and n.id.rsplit('_p', 1)[0] in self.generated}
             propagate_copies(fn, self.generated)
